@@ -318,6 +318,11 @@ CLAUSES = [
     ),
 ]
 
+from ..names_check import names_clause  # noqa: E402
+
+if names_clause("C06") is not None:
+    CLAUSES.append(names_clause("C06"))
+
 PROPERTY = Property(
     id="C06",
     level="exploration",
